@@ -25,6 +25,7 @@ fn main() {
         "errclass-rows" => errclass::rows(rest),
         "exec-replay" => exec::replay(rest),
         "lists-replay" => lists::replay(rest),
+        "lex-deep" => lex::deep(&args),
         "lex-replay" => lex::replay(rest),
         "mnem-replay" => mnemonic::replay(rest),
         "mnem-rows" => mnemonic::rows(rest),
